@@ -558,6 +558,37 @@ def gen_config(rng, problem, flatten=None, drop_level=None, factor=None):
         cands = h[:-1] + (['not_a_level'] if rng.random() < 0.3 else [])
         if len(h) > 1 and cands:
             drop_level = rng.choice(cands)
+    return _gen_config(rng, n, flatten, drop_level, factor)
+
+
+def maybe_factor_lookup(rng, tree, cfg, prob=0.35, factor=None):
+    """call when flatten / drop_level of cfg are final"""
+    cfg.pop('bootstrap_factor_lookup', None)
+    if rng.random() < prob:
+        cfg['bootstrap_factor_lookup'] = gen_factor_lookup(
+            rng, tree, cfg, factor=factor)
+    return cfg
+
+
+def gen_factor_lookup(rng, tree, cfg, factor=None, mode=None):
+    """the `bootstrap_factor_lookup` option: [level, factor] pairs, complete
+    for the tree of the RUN only ('run': no entry for a dropped level, only
+    'None' with flatten) or for the stored tree ('stored'), one factor or a
+    different one per level"""
+    mode = mode or rng.choice(['run', 'run', 'stored'])
+    levels = run_levels(tree, cfg)[:-1] if mode == 'run' \
+        else list(tree['hierarchy'][:-1])
+    same = rng.random() < 0.4
+    f0 = factor if factor is not None else rng.choice([1.0, 0.9, 0.5, 0.7])
+    pairs = [['None', f0]]
+    for l in levels:
+        pairs.append([l, f0 if (same or factor is not None)
+                      else rng.choice([1.0, 0.9, 0.5, 0.7, 0.3])])
+    rng.shuffle(pairs)
+    return pairs
+
+
+def _gen_config(rng, n, flatten, drop_level, factor):
     return {
         'flatten': bool(flatten), 'drop_level': drop_level,
         # small chunks half of the time: many chunk files, whose sorted
@@ -634,7 +665,8 @@ def _run_problem_in(d, problem, cfg, tree, markers, want_trace, tmp_dir):
         bootstrap_iteration=cfg['bootstrap_iteration'],
         rng_seed=cfg['rng_seed'], n_runners_up=cfg['n_runners_up'],
         flatten=cfg['flatten'], drop_level=cfg['drop_level'], csv=False,
-        min_markers=cfg.get('min_markers', 1))
+        min_markers=cfg.get('min_markers', 1),
+        bootstrap_factor_lookup=cfg.get('bootstrap_factor_lookup'))
     old = os.environ.get('CELL_TYPE_MAPPER_VERIF_TRACE')
     old_tmpdir = os.environ.get('TMPDIR')
     old_tempdir = tempfile.tempdir
